@@ -1,52 +1,102 @@
-"""C05 (translation validation): run the MiniC IR regenerated from the C sources and the real C functions on the same limb-level inputs."""
+"""C05 (translation validation): run the MiniC IR regenerated from the C sources and the real C functions on the same
+limb-level inputs. Two limb layouts: 5x52 field / 4x64 scalar (128-bit builds; sets field5x52, scalar4x64, ct) and
+10x26 field / 8x32 scalar (int64 build; sets field10x26, scalar8x32, ct32). A build answers `skip` for the other layout."""
 from .common import *
 
-def limbs5(rng, top=52, rest=56):
-    def one(bits):
-        u = rng.random()
-        if u < 0.25: return (1 << bits) - 1
-        if u < 0.35: return 0
-        if u < 0.45: return 1 << (bits - 1)
-        if u < 0.55: return (1 << rng.randint(0, bits - 1)) - 1
-        return rng.r.getrandbits(bits)
-    return [one(rest) for _ in range(4)] + [one(top)]
-
 def h(vs): return ','.join('%x' % v for v in vs)
+
+def edge(rng, bits):
+    u = rng.random()
+    if u < 0.25: return (1 << bits) - 1
+    if u < 0.35: return 0
+    if u < 0.45: return 1 << (bits - 1)
+    if u < 0.55: return (1 << rng.randint(0, bits - 1)) - 1
+    return rng.r.getrandbits(bits)
+
+LAY = {
+    # name: (field set, scalar set, ct set, n field limbs, limb bits, top limb bits, n scalar limbs, scalar limb bits, extra sets with the mul kernels)
+    '64': ('field5x52', 'scalar4x64', 'ct', 5, 52, 48, 4, 64),
+    '32': ('field10x26', 'scalar8x32', 'ct32', 10, 26, 22, 8, 32),
+}
 
 def generate(rng, tier, ctx):
     cases = []
     n = {'quick': 60, 'thorough': 600}[tier]
-    for _ in range(n):
-        a, b = limbs5(rng), limbs5(rng)
-        for f in ('field5x52.fe_mul_inner', 'field5x52.fe_mul_inner_struct', 'ct.fe_mul_inner'):
-            cases.append(('k_run %s a=%s b=%s / r:5' % (f, h(a), h(b)), ('k_run', f)))
-        for f in ('field5x52.fe_sqr_inner', 'field5x52.fe_sqr_inner_struct', 'ct.fe_sqr_inner'):
-            cases.append(('k_run %s a=%s / r:5' % (f, h(a)), ('k_run', f)))
-        # normalisation family: magnitudes up to 32: limbs < 2^52 * 64 (top < 2^48 * 64)
-        m = rng.choice([1, 2, 8, 31, 32])
-        r_ = [rng.choice([v * m, v]) for v in limbs5(rng, 48, 52)]
-        nearp = [0xFFFFEFFFFFC2F + rng.randint(-2, 2), 0xFFFFFFFFFFFFF, 0xFFFFFFFFFFFFF, 0xFFFFFFFFFFFFF, 0x0FFFFFFFFFFFF]
-        for r0 in (r_, nearp):
-            for f in ('field5x52.fe_normalize', 'ct.fe_normalize', 'field5x52.fe_normalize_weak'):
-                cases.append(('k_run %s r.n=%s / r.n:5' % (f, h(r0)), ('k_run', f)))
-            cases.append(('k_run ct.fe_normalizes_to_zero r.n=%s / ret' % h(r0), ('k_run', 'ct.fe_normalizes_to_zero')))
-        r31 = [v for v in limbs5(rng, 48, 52)]
-        cases.append(('k_run field5x52.fe_half r.n=%s / r.n:5' % h(r31), ('k_run', 'field5x52.fe_half')))
-        cases.append(('k_run field5x52.fe_add r.n=%s a.n=%s / r.n:5' % (h(limbs5(rng, 48, 52)), h(limbs5(rng, 48, 52))), ('k_run', 'field5x52.fe_add')))
-        cases.append(('k_run field5x52.fe_mul_int r.n=%s a=%x / r.n:5' % (h(limbs5(rng, 48, 52)), rng.randint(0, 32)), ('k_run', 'field5x52.fe_mul_int')))
-        cases.append(('k_run ct.fe_negate a.n=%s m=%x / r.n:5' % (h(limbs5(rng, 48, 52)), rng.randint(1, 31)), ('k_run', 'ct.fe_negate')))
-        cases.append(('k_run ct.fe_cmov r.n=%s a.n=%s flag=%x / r.n:5' % (h(limbs5(rng)), h(limbs5(rng)), rng.randint(0, 1)), ('k_run', 'ct.fe_cmov')))
-        def sc4():
-            v = rng.scalar(0.6) % N
-            return [(v >> (64 * i)) & ((1 << 64) - 1) for i in range(4)]
-        cases.append(('k_run ct.scalar_cmov r.d=%s a.d=%s flag=%x / r.d:4' % (h(sc4()), h(sc4()), rng.randint(0, 1)), ('k_run', 'ct.scalar_cmov')))
-        cases.append(('k_run ct.scalar_cond_negate r.d=%s flag=%x / r.d:4 ret' % (h(sc4()), rng.randint(0, 1)), ('k_run', 'ct.scalar_cond_negate')))
-        cases.append(('k_run ct.scalar_negate a.d=%s / r.d:4' % h(sc4()), ('k_run', 'ct.scalar_negate')))
-        cases.append(('k_run ct.scalar_add a.d=%s b.d=%s / r.d:4 ret' % (h(sc4()), h(sc4())), ('k_run', 'ct.scalar_add')))
-        raw = rng.scalar(0.7)
-        rawd = [(raw >> (64 * i)) & ((1 << 64) - 1) for i in range(4)]
-        cases.append(('k_run ct.scalar_is_high a.d=%s / ret' % h(sc4()), ('k_run', 'ct.scalar_is_high')))
-        cases.append(('k_run ct.scalar_check_overflow a.d=%s / ret' % h(rawd), ('k_run', 'ct.scalar_check_overflow')))
-        cases.append(('k_run ct.scalar_is_zero a.d=%s / ret' % h(sc4()), ('k_run', 'ct.scalar_is_zero')))
-        cases.append(('k_run ct.int_cmov r=%x a=%x flag=%x / r:1' % (rng.randint(0, 1000), rng.randint(0, 1000), rng.randint(0, 1)), ('k_run', 'ct.int_cmov')))
+    for lay in ('64', '32'):
+        FS, SS, CS, nf, lb, tb, ns, sb = LAY[lay]
+        def fe_in(slack_rest, slack_top):
+            """limbs for a *_inner call: magnitude up to 8 (5x52: 56/52 bits; 10x26: 30/26 bits)"""
+            return [edge(rng, lb + slack_rest) for _ in range(nf - 1)] + [edge(rng, tb + slack_top)]
+        def fe_mag(m):
+            v = [edge(rng, lb) for _ in range(nf - 1)] + [edge(rng, tb)]
+            return [rng.choice([x * m, x]) for x in v]
+        def sc(raw=False):
+            v = rng.scalar(0.6 if not raw else 0.7)
+            if not raw: v %= N
+            return [(v >> (sb * i)) & ((1 << sb) - 1) for i in range(ns)]
+        P_LIMBS = [(P >> (lb * i)) & ((1 << lb) - 1) for i in range(nf)]
+        for _ in range(n):
+            a, b = fe_in(4, 4), fe_in(4, 4)
+            muls = [FS + '.fe_mul_inner', CS + '.fe_mul_inner'] + ([FS + '.fe_mul_inner_struct'] if lay == '64' else [])
+            sqrs = [FS + '.fe_sqr_inner', CS + '.fe_sqr_inner'] + ([FS + '.fe_sqr_inner_struct'] if lay == '64' else [])
+            for f in muls: cases.append(('k_run %s a=%s b=%s / r:%d' % (f, h(a), h(b), nf), ('k_run', f)))
+            for f in sqrs: cases.append(('k_run %s a=%s / r:%d' % (f, h(a), nf), ('k_run', f)))
+            m = rng.choice([1, 2, 8, 31, 32])
+            r_ = fe_mag(m)
+            nearp = list(P_LIMBS); nearp[0] = (nearp[0] + rng.randint(-2, 2)) & ((1 << (lb + 1)) - 1)
+            for r0 in (r_, nearp):
+                for f in (FS + '.fe_normalize', CS + '.fe_normalize', FS + '.fe_normalize_weak'):
+                    cases.append(('k_run %s r.n=%s / r.n:%d' % (f, h(r0), nf), ('k_run', f)))
+                cases.append(('k_run %s.fe_normalizes_to_zero r.n=%s / ret' % (CS, h(r0)), ('k_run', CS + '.fe_normalizes_to_zero')))
+            cases.append(('k_run %s.fe_half r.n=%s / r.n:%d' % (FS, h(fe_mag(rng.choice([1, 8, 31]))), nf), ('k_run', FS + '.fe_half')))
+            cases.append(('k_run %s.fe_half r.n=%s / r.n:%d' % (CS, h(fe_mag(rng.choice([1, 8, 31]))), nf), ('k_run', CS + '.fe_half')))
+            cases.append(('k_run %s.fe_add r.n=%s a.n=%s / r.n:%d' % (FS, h(fe_mag(rng.choice([1, 8, 16]))), h(fe_mag(rng.choice([1, 8, 16]))), nf), ('k_run', FS + '.fe_add')))
+            cases.append(('k_run %s.fe_mul_int r.n=%s a=%x / r.n:%d' % (FS, h(fe_mag(1)), rng.randint(0, 32), nf), ('k_run', FS + '.fe_mul_int')))
+            negs = [CS + '.fe_negate'] + ([FS + '.fe_negate'] if lay == '32' else [])
+            for f in negs:
+                mm = rng.randint(1, 31)
+                cases.append(('k_run %s a.n=%s m=%x / r.n:%d' % (f, h(fe_mag(rng.choice([1, mm]))), mm, nf), ('k_run', f)))
+            cases.append(('k_run %s.fe_cmov r.n=%s a.n=%s flag=%x / r.n:%d' % (CS, h(fe_in(4, 4)), h(fe_in(4, 4)), rng.randint(0, 1), nf), ('k_run', CS + '.fe_cmov')))
+            cases.append(('k_run %s.scalar_cmov r.d=%s a.d=%s flag=%x / r.d:%d' % (CS, h(sc()), h(sc()), rng.randint(0, 1), ns), ('k_run', CS + '.scalar_cmov')))
+            cases.append(('k_run %s.scalar_cond_negate r.d=%s flag=%x / r.d:%d ret' % (CS, h(sc()), rng.randint(0, 1), ns), ('k_run', CS + '.scalar_cond_negate')))
+            for S in (CS, SS):
+                cases.append(('k_run %s.scalar_negate a.d=%s / r.d:%d' % (S, h(sc()), ns), ('k_run', S + '.scalar_negate')))
+                cases.append(('k_run %s.scalar_add a.d=%s b.d=%s / r.d:%d ret' % (S, h(sc()), h(sc()), ns), ('k_run', S + '.scalar_add')))
+            cases.append(('k_run %s.scalar_is_high a.d=%s / ret' % (CS, h(sc())), ('k_run', CS + '.scalar_is_high')))
+            cases.append(('k_run %s.scalar_check_overflow a.d=%s / ret' % (CS, h(sc(True))), ('k_run', CS + '.scalar_check_overflow')))
+            cases.append(('k_run %s.scalar_is_zero a.d=%s / ret' % (CS, h(sc())), ('k_run', CS + '.scalar_is_zero')))
+            cases.append(('k_run %s.int_cmov r=%x a=%x flag=%x / r:1' % (CS, rng.randint(0, 1000), rng.randint(0, 1000), rng.randint(0, 1)), ('k_run', CS + '.int_cmov')))
+            # scalar multiplication kernels: the 512-bit product, its reduction (fed with ANY 512-bit value), and both together
+            x, y = sc(), sc()
+            cases.append(('k_run %s.scalar_mul_512 a.d=%s b.d=%s / %s:%d' % (SS, h(x), h(y), 'l8' if lay == '64' else 'l', 2 * ns), ('k_run', SS + '.scalar_mul_512')))
+            wide = [edge(rng, sb) for _ in range(2 * ns)]
+            cases.append(('k_run %s.scalar_reduce_512 l=%s / r.d:%d' % (SS, h(wide), ns), ('k_run', SS + '.scalar_reduce_512')))
+            cases.append(('k_run %s.scalar_mul a.d=%s b.d=%s / r.d:%d' % (SS, h(x), h(y), ns), ('k_run', SS + '.scalar_mul')))
+            cases.append(('k_run %s.scalar_half a.d=%s / r.d:%d' % (SS, h(sc()), ns), ('k_run', SS + '.scalar_half')))
+            small = rng.r.getrandbits(rng.randint(1, 250))
+            sm = [(small >> (sb * i)) & ((1 << sb) - 1) for i in range(ns)]
+            cases.append(('k_run %s.scalar_cadd_bit r.d=%s bit=%x flag=%x / r.d:%d' % (SS, h(sm), rng.randint(0, 250), rng.randint(0, 1), ns), ('k_run', SS + '.scalar_cadd_bit')))
+        # group-level primitives of the constant-time set (translation validation on points, their special cases, raw limbs)
+        def fel(v): return [(v >> (lb * i)) & ((1 << lb) - 1) for i in range(nf)]
+        def gej_toks(pre, Q, z, inf):
+            x, y = (Q[0] * z * z % P, Q[1] * z * z * z % P) if Q else (rng.scalar(0.3) % P, rng.scalar(0.3) % P)
+            return '%s.x.n=%s %s.y.n=%s %s.z.n=%s %s.infinity=%x' % (pre, h(fel(x)), pre, h(fel(y)), pre, h(fel(z)), pre, inf)
+        def ge_toks(pre, Q, inf):
+            x, y = Q if Q else (rng.scalar(0.3) % P, rng.scalar(0.3) % P)
+            return '%s.x.n=%s %s.y.n=%s %s.infinity=%x' % (pre, h(fel(x)), pre, h(fel(y)), pre, inf)
+        outs = 'r.x.n:%d r.y.n:%d r.z.n:%d r.infinity' % (nf, nf, nf)
+        for k in range(n // 3):
+            A_, B_ = rng.point(), rng.point()
+            z = rng.choice([1, 2, rng.randint(1, P - 1)])
+            pairs = [(A_, B_, 0, 0, 'gen'), (A_, A_, 0, 0, 'double'), (A_, pneg(A_), 0, 0, 'neg'), (A_, B_, 1, 0, 'a-inf'), (A_, B_, 0, 1, 'b-inf'), (A_, B_, 1, 1, 'both-inf'),
+                     (None, None, 0, 0, 'raw')]
+            for a_, b_, ia, ib, cls in pairs:
+                cases.append(('k_run %s.gej_add_ge %s %s / %s' % (CS, gej_toks('a', a_, z, ia), ge_toks('b', b_, ib), outs), ('k_run', CS + '.gej_add_ge.' + cls)))
+            for a_, ia in ((A_, 0), (A_, 1), (None, 0)):
+                cases.append(('k_run %s.gej_double %s / %s' % (CS, gej_toks('a', a_, z, ia), outs), ('k_run', CS + '.gej_double')))
+                cases.append(('k_run %s.gej_neg %s / %s' % (CS, gej_toks('a', a_, z, ia), outs), ('k_run', CS + '.gej_neg')))
+            cases.append(('k_run %s.ge_to_storage %s / r.x.n:%d r.y.n:%d' % (CS, ge_toks('a', A_, 0), ns, ns), ('k_run', CS + '.ge_to_storage')))
+            v = rng.choice([0, 1, P - 1, rng.scalar(0.5) % P])
+            cases.append(('k_run %s.fe_get_b32 a.n=%s / r:32' % (CS, h(fel(v))), ('k_run', CS + '.fe_get_b32')))
+            cases.append(('k_run %s.scalar_mul a.d=%s b.d=%s / r.d:%d' % (CS, h(sc()), h(sc()), ns), ('k_run', CS + '.scalar_mul')))
     return cases
